@@ -581,7 +581,7 @@ func hashStr(s string) uint64 {
 // C18: IP whitelist admits exactly the configured addresses, also after reload.
 
 var c18IPs = []string{"127.0.0.1", "127.0.0.2", "127.0.0.3"}
-var c18Probe = [][4]byte{{127, 0, 0, 1}, {127, 0, 0, 2}, {127, 0, 0, 3}, {10, 1, 2, 3}}
+var c18Probe = [][4]byte{{127, 0, 0, 1}, {127, 0, 0, 2}, {127, 0, 0, 3}, {10, 1, 2, 3}, {127, 0, 0, 10}, {27, 0, 0, 1}} // the last two: a listed address is a proper prefix / suffix of theirs
 
 func c18File(state int) string {
 	// bit 3: enable; bits 0..2: addresses listed
